@@ -29,6 +29,10 @@ func transplantMessage(rt *rapid.T) (builtMsg, bool) {
 	g := gen.New(rt, 700)
 	avoidOneWay(g)
 	sm := g.SwitchMessageOf("mp_reply_flow")
+	// what only a switch puts on the wire (ONF experimenter-class fields, the NXM fields and instructions
+	// without a constructor) is exactly what reaches a built message only this way
+	g.Avoid["wire_only_actions"] = true // those are mis-decoded on the pinned tree (known finding of C04)
+	injectONFFields(rt, g, sm.Tree)
 	wire, big := encodeModel(sm.Tree)
 	if big {
 		return builtMsg{}, false
